@@ -59,20 +59,17 @@ def singleExact (hintLen : Nat) (items : List Nat) : Draw (Option Nat) := fun ws
   | none => none
   | some (k, ws') => some (items[min hintLen k]?, ws')
 
-/-- One item of `Random::multiple`'s loop.  State: (buffer, number filled). Item `i` with value `x`. -/
-def multipleStep (buf : Array Nat) (len i x : Nat) : Draw (Array Nat × Nat) := fun ws =>
-  if len < buf.size then some ((buf.setIfInBounds len x, len + 1), ws)
-  else
-    match index (i + 1) ws with
-    | none => none
-    | some (k, ws') => some ((buf.setIfInBounds k x, len), ws')   -- `if let Some(slot) = buf.get_mut(k)`
-
+/-- `Random::multiple`'s loop over the remaining items `xs` (the next one has position `i`);
+`len` slots are filled so far:
+`if len < amount { buf[len] = elem; len += 1 } else { let k = self.index(i + 1); if let Some(slot) = buf.get_mut(k) { *slot = elem } }` -/
 def multipleLoop : List Nat → Nat → Array Nat → Nat → Draw (Array Nat × Nat)
   | [], _, buf, len, ws => some ((buf, len), ws)
   | x :: xs, i, buf, len, ws =>
-    match multipleStep buf len i x ws with
-    | none => none
-    | some ((buf', len'), ws') => multipleLoop xs (i+1) buf' len' ws'
+    if len < buf.size then multipleLoop xs (i+1) (buf.setIfInBounds len x) (len+1) ws
+    else
+      match index (i + 1) ws with
+      | none => none
+      | some (k, ws') => multipleLoop xs (i+1) (buf.setIfInBounds k x) len ws'
 
 /-- `Random::multiple(collection, buf)`; returns (buffer afterwards, count). -/
 def multiple (items : List Nat) (buf : Array Nat) : Draw (Array Nat × Nat) :=
